@@ -242,3 +242,39 @@ func H_M2_field_allrep() { mRoundTrip(12, mOneFieldBytesPacked()) }
 
 //verif:props=C04 bounds=VAllPacked;tag-byte+complete-payload(packed-payloads-0..4,8-bytes) maxsteps=8000000 tier=thorough timeout=60000
 func H_M2_field_allpacked() { mRoundTrip(13, mOneFieldBytesPacked()) }
+
+// H_M2_unknown_verbatim: a schema that knows no field keeps every record in input order with
+// its field number, wire type and payload bytes unchanged (only the tag is re-encoded minimally),
+// and Marshal re-emits exactly that.
+//
+//verif:props=C09 bounds=VEmpty;all-byte-strings<=4(quick)/5(thorough) maxsteps=8000000
+func H_M2_unknown_verbatim() {
+	N := 4
+	if nd.Thorough() {
+		N = 5
+	}
+	b := nd.Bytes(N)
+	mi, p := vType(6)
+	_, err := mi.unmarshalPointer(b, p, 0, mOpts())
+	nd.Assume(err == nil)
+	nd.Reach("decoded")
+	var want []byte
+	for r := b; len(r) > 0; {
+		num, typ, n := protowire.ConsumeTag(r)
+		if n <= 0 {
+			break
+		}
+		r = r[n:]
+		m := protowire.ConsumeFieldValue(num, typ, r)
+		if m < 0 {
+			break
+		}
+		want = protowire.AppendTag(want, num, typ)
+		want = append(want, r[:m]...)
+		r = r[m:]
+	}
+	x := (*VEmpty)(p.p)
+	nd.Assert(mEq(x.unknownFields, want), "unknown fields are kept in order with number, wire type and payload bytes unchanged")
+	canon, merr := mCanon(mi, p)
+	nd.Assert(merr == nil && mEq(canon, want), "Marshal re-emits the unknown fields unchanged")
+}
